@@ -30,8 +30,13 @@ CLAIMED = {
             "A pause request changes nothing but statuses (whole-state equality after forgetting statuses); a report "
             "completes its task identically whether running or pushed to pausing; a task event fails/cancels the pausing "
             "workflow exactly when it would the running one; resume finds the staged entries untouched; C02b gives 'paused "
-            "exactly when nothing is in flight' for the formal protocol. Tested, not proved: outcome equality with the "
-            "unpaused twin run (whole-call commutation). Witness: a condition reading $__state.status sees the pause.",
+            "exactly when nothing is in flight' for the formal protocol. For plain tasks (no item tables, no engine-command targets) and evaluators that do not read "
+            "__state the whole call commutes with the pause: any report processed while pausing gives the same result and a "
+            "state equal up to workflow status / terminal flags / error log, and a pause inserted before a block of reports "
+            "with a resume at rest yields the unpaused state (status resuming) and the same next offers. Refuted where the "
+            "unpaused run completes on that report (output rendered without the last task's context -- D5a). Tested, not "
+            "proved: the same with with-items tasks and engine commands. Witness: a condition reading $__state.status sees "
+            "the pause.",
             "Reference provider protocol (atomic poll) assumed by the twin-run monitor; known finding D5a."),
     "C10": ("Proved for every evaluator and rerun-free history: after canceling/canceled the status stays in "
             "{canceling, canceled, failed}, never succeeded; nothing is offered unless failed; canceled is final (so "
